@@ -213,18 +213,22 @@ def execute_case(engine: Engine, case: dict) -> Outcome:
     return engine.execute(case)
 
 
-def minimise(engine: Engine, case: dict, cls: str, *, max_steps: int = 250) -> Tuple[dict, int]:
-    """Greedy structural minimisation keeping the same violation class."""
+def minimise(engine: Engine, case: dict, cls: str, *, max_steps: int = 250, max_seconds: float = 240.0) -> Tuple[dict, int]:
+    """Greedy structural minimisation keeping the same violation class (bounded in steps and in wall time:
+    a candidate that hangs the code under test costs its whole CPU budget)."""
+
+    import time as _time
 
     engine.setup()
     steps = 0
     current = case
     improved = True
-    while improved and steps < max_steps:
+    t_end = _time.monotonic() + max_seconds
+    while improved and steps < max_steps and _time.monotonic() < t_end:
         improved = False
         for cand in engine.shrink_candidates(current):
             steps += 1
-            if steps > max_steps:
+            if steps > max_steps or _time.monotonic() >= t_end:
                 break
             try:
                 out = engine.execute(cand)
